@@ -116,11 +116,11 @@ PROPS = {
     'C02': {
         'trusted': [STEP, FS, 'strace 6.1 (-f -xx -y) reports every file-system-mutating system call of the traced store process with its path and data; the trace parser and file-system simulator in harness/src/fstrace.rs'],
         'assumptions': ['directory operations (create, link, rename, unlink, mkdir, rmdir) are durable at once and in program order in both persistence models: the code never fsyncs a directory', 'system calls are atomic (torn appends are C12/C13)',
-                        'crash states are simulated from the trace of one complete run, not provoked', 'single injected EIO/ENOSPC faults are not yet explored by this check'],
-        'partial': ['fault_surfaces (injected EIO/ENOSPC) is not covered', 'crash_recover is batch-granular and excludes GC drops, a flush racing a compaction, and a second crash during recovery; the run explores crash points inside reopen blocks and verifier passes with the oracle only',
+                        'crash states are simulated from the trace of one complete run, not provoked', 'faults are injected with strace -e inject=<call>:error=<E>:when=K (one fault per run: write=ENOSPC; fdatasync, fsync, linkat, rename, unlink, unlinkat, mkdir = EIO), a sample of the (call, K) pairs per history in the quick tier'],
+        'partial': ['fault_surfaces (a single injected EIO/ENOSPC is surfaced, never acknowledged, and leaves a store that reopens with every acknowledged write) is an oracle on the real code only: the Lean model has no fault transitions', 'crash_recover is batch-granular and excludes GC drops, a flush racing a compaction, and a second crash during recovery; the run explores crash points inside reopen blocks and verifier passes with the oracle only',
                     'trace-vs-model comparison covers put/flush/reopen/merge-compaction blocks of single-entry histories; orphan temporaries of recover_one on an empty log are canonicalised away (justified by frame_ops_invisible)'],
         'level_text': 'Theorem crash_recover: for every history of puts, flushes, clean reopens and compactions, every crash point in its system-call sequence and both persistence models, reopening succeeds and yields exactly the batches 0..k-1 with acknowledged <= k <= appended. The operation list the theorem quantifies over is compared with the strace-derived operation list of the real store for the same history; every prefix of the real trace is turned into a crash image under both models, reopened by the real code in a fresh process and read back against the acknowledged / in-flight operations.',
-        'level_note': 'Trusted: Lean kernel; axioms propext, Classical.choice, Quot.sound; strace and the trace parser/simulator; ordered durable directory operations; atomic system calls. Fault injection not covered.',
+        'level_note': 'Trusted: Lean kernel; axioms propext, Classical.choice, Quot.sound; strace and the trace parser/simulator; ordered durable directory operations; atomic system calls. Fault injection is observed on the real code, not modelled.',
         'technique': 'Lean 4 crash-recovery theorem over a file-system protocol model + strace-derived op-list correspondence + exhaustive crash-point enumeration of traced histories (both persistence models) with reopen by the real code',
     },
     'C03': {
